@@ -122,6 +122,56 @@ pub fn check_case(_ctx: &Ctx, case: &Case, m: usize, t: &mut Tally) {
     } else {
         t.count("subdivision_skipped_values_would_leave_domain");
     }
+    // ---- deep subdivision (m = 256) of short series: m has no upper bound in the statement. The sub-steps fall below the
+    // 1e-3 kWh the library's *per-source* split needs, so only what does not go through that split is pinned: the
+    // per-carrier final-energy totals (use, production, produced-and-used, exported, delivered by the grid) and the
+    // matching factor of every sub-step.
+    if n <= 4 && r.chance(1, 3) {
+        const M: usize = 256;
+        let mut c2 = case.clone();
+        c2.spec = case.spec.subdivided(M);
+        let wit = |extra: Value| {
+            let mut w = case.witness();
+            w["subdivision"] = json!(M);
+            w["observed"] = extra;
+            w
+        };
+        if let Some(ep2) = prepare(PROP, &c2, t).and_then(|(cc, ff)| eval(PROP, &c2, &cc, &ff, case.k, case.area, case.lm, t)) {
+            let other = flat(&ep2);
+            let tol = Tol::for_steps(n * M);
+            let mut bad = 0;
+            for (p, v) in &base {
+                let carrier_total = p.starts_with("balance_cr.") && [".used.epus_an", ".used.nepus_an", ".used.cgnus_an", ".prod.an", ".prod.epus_an", ".exp.an", ".exp.grid_an", ".exp.nepus_an", ".del.grid_an"].iter().any(|s| p.ends_with(s));
+                if carrier_total {
+                    let v2 = other.get(p).copied().unwrap_or(0.0);
+                    let band = tol.atol + tol.rtol * scale_of(p, &rf, *v);
+                    if !((v2 - v).abs() <= band) {
+                        bad += 1;
+                        if bad <= 2 {
+                            t.violation("C09.deep_subdivision.annual_result_changes", format!("annual result {p}: {v2} after splitting every step into {M} sub-steps, expected {v}"), || wit(json!({"path": p})));
+                        }
+                    }
+                    t.count("deep_subdivision_fields_compared");
+                }
+            }
+            // matching factor of sub-step j = matching factor of step j / M
+            for (p, v2) in &other {
+                if let Some((vecname, j)) = step_index(p) {
+                    if vecname.ends_with("f_match") {
+                        if let Some(v) = base.get(&format!("{vecname}[{}]", j / M)) {
+                            if (v2 - v).abs() > 1e-4 {
+                                bad += 1;
+                                if bad <= 2 {
+                                    t.violation("C09.deep_subdivision.step_values_do_not_follow", format!("{p} = {v2}, the matching factor of the step it is part of is {v}"), || wit(json!({"path": p})));
+                                }
+                            }
+                        }
+                    }
+                }
+            }
+            t.count("deep_subdivisions_checked");
+        }
+    }
     if case.spec.has_cogen() {
         t.count("cases_with_cogeneration");
     }
@@ -187,6 +237,7 @@ pub fn run(ctx: &Ctx) -> Report {
         ("cases_with_cogeneration".to_string(), tally.get("cases_with_cogeneration"), 500),
         ("cases_with_load_matching".to_string(), tally.get("cases_with_load_matching"), 500),
         ("cases_longer_than_1024_steps".to_string(), tally.get("cases_longer_than_1024_steps"), 50),
+        ("deep_subdivisions_checked".to_string(), tally.get("deep_subdivisions_checked"), 200),
         ("cases_with_sub_steps_below_0.01_kWh".to_string(), tally.get("cases_with_sub_steps_below_0.01_kWh"), 300),
     ];
     Report {
